@@ -14,10 +14,10 @@ package checks
 import (
 	"bufio"
 	"bytes"
-	"errors"
-	"io"
 	"encoding/hex"
+	"errors"
 	"fmt"
+	"io"
 	"os"
 	"reflect"
 	"runtime"
